@@ -284,6 +284,14 @@ class Screen(BaseScreen, RealTerminal):
         self._wait_for_input_ready(self._next_timeout)
         keys, raw = self.parse_input(None, None, self.get_available_raw_input())
 
+        # An incomplete sequence at the end of the available input: give the rest of it
+        # complete_wait to arrive, then use the pending codes as they stand.
+        while self._partial_codes:
+            more_available = bool(self._wait_for_input_ready(self.complete_wait))
+            new_keys, new_raw = self.parse_input(None, None, self.get_available_raw_input(), more_available)
+            keys += new_keys
+            raw += new_raw
+
         # Avoid pegging CPU at 100% when slowly resizing
         if keys == ["window resize"] and self.prev_input_resize:
             logger.debug('get_input: got "window resize" > 1 times. Enable throttling for resize.')
